@@ -5,6 +5,12 @@ V = "/verif"
 props = [json.loads(l) for l in open(V + "/properties.jsonl")]
 
 CLAIMED = {
+ "C16": dict(
+    text="Two structural necessary conditions only (set semantics over histories is not decided): (a) every block-number entry of the generic 64-bit bitmap layer converts to cluster units before dispatching to the backend slot "
+         "(single entries shift the argument; range entries shift the start, round the end up by one cluster minus one and recompute the length; find_first_* shift bounds in and the result out), range-checks the converted value, and the two cluster-unit entries do not shift; "
+         "both backends define every slot called without a NULL test; (b) in the rbtree backend cached cursors never outlive what they describe: every tree insertion is preceded on all paths through all callers by a reset of rcursor_next (or of the read cursor), "
+         "every erase is surrounded by cursor invalidation, rb_free_extent nulls each cursor that equals the freed extent, functions installing a new root reset all cursors.",
+    ref="§4 C16", technique="static analysis: dominance / must-pass-through over clang CFGs with caller propagation, vtable slot completeness"),
  "C20": dict(
     text="ORDER/GUARD/PURITY/WHO rules: tune2fs clears EXT2_FLAG_MASTER_SB_ONLY before every changer, resize2fs before the final close, mke2fs's handle never has it, the flag's setters are a listed set; "
          "e2fsck's end-of-run comparison reads a prescribed backup, compares the feature words, block/inode counts and UUID (ignore masks only run-time bits), is made whenever the fs is valid and writable and its result alone decides the refresh, with nothing re-setting the flag before the flush; "
